@@ -455,6 +455,9 @@ def linsys_from_facts(facts):
             a, b = atom[1], atom[2]
             if is_int(a) and a[1] == 0:
                 ls.add_eq(affine(b))
+            # !(a < b) and !(b < a)  =>  a = b
+            if facts.atoms.get(("lt", b, a)) is False:
+                ls.add_eq(affine(a).add(affine(b), -1))
         elif atom[0] == "lt" and pol is True:
             a, b = atom[1], atom[2]
             if is_int(b) and b[1] == 1:
